@@ -68,6 +68,7 @@ def outcome? : Sexp → Option Outcome
   | .list [.atom "ok", n, w] => do some (.ok (← n.nat?) (← w.bool?))
   | .list [.atom "raisedUser", n] => n.nat?.map .raisedUser
   | .list [.atom "gotFuture"] => some .gotFuture
+  | .list [.atom "gotGenerator"] => some .gotGenerator
   | .list [.atom "raised", .atom "noAsynq"] => some (.raised .noAsynq)
   | .list [.atom "raised", .atom "typeError"] => some (.raised .typeError)
   | .list [.atom "raised", .atom "attrError"] => some (.raised .attrError)
@@ -114,6 +115,8 @@ def describe (m i : Report) : String :=
 def handle (id : Nat) (hdr : List Sexp) (body : List Sexp) : String :=
   match case? hdr, report? body with
   | some c, some impl =>
+    -- a cell outside the supported bindings is never generated; if one arrives, `spec` rejects whatever was observed
+    -- (SPEC=fail:unsupported-cell, also for the model's own report)
     let model := modelReport c
     let corr := model == impl
     let spec := specClause c impl
